@@ -194,6 +194,14 @@ pub fn run(tier: &str, seed: u64, only: Option<&str>) -> Run {
         "witness",
     );
 
+    // replay of `mania_n50_kept_needs_accepted` (NaN accuracy: the initial `best` overwrites a provided
+    // n50 with the remainder; sum clause and idempotence still hold)
+    cx.case(
+        Case { mode: MANIA, attrs: [3, 0, 0, 0], spinners: 0, passed: None, origin: 0, worst: false, acc: Some(f64::NAN),
+               fields: vec![None, None, None, None, Some(1), None] },
+        "witness",
+    );
+
     // 1. structured enumeration: every small shape x every subset of the core fields x accuracy
     //    x priority x origin, values drawn from 0..=n+2 (edges favoured)
     let reps = if thorough { 6 } else { 2 };
